@@ -81,7 +81,15 @@ func VerifHarness_C19_allocate() {
 	// ---- second Allocate on the same 5-tuple: retransmission or a different request
 	if a != nil {
 		retrans := vBool()
-		msg2 := vNewMsg(stun.MethodAllocate, stun.ClassRequest, setters...)
+		setters2 := setters
+		if !retrans && vBool() {
+			// a different request may also be malformed: no REQUESTED-TRANSPORT, odd family, DONT-FRAGMENT
+			setters2 = append([]stun.Setter{vRawAttr{stun.AttrRequestedAddressFamily, []byte{vU8(), 0, 0, 0}}}, vCreds()...)
+			if vBool() {
+				setters2 = append([]stun.Setter{vRawAttr{stun.AttrDontFragment, nil}}, setters2...)
+			}
+		}
+		msg2 := vNewMsg(stun.MethodAllocate, stun.ClassRequest, setters2...)
 		if retrans {
 			msg2.TransactionID = msg.TransactionID
 			msg2.WriteTransactionID()
